@@ -11,6 +11,7 @@
   `decode*` with proto.Unmarshal on generated values and on every truncation of them.
 -/
 import RaftVerif.Proofs.Codec
+import RaftVerif.Proofs.CodecCfg
 set_option linter.unusedSimpArgs false
 namespace Raft.Codec
 open Raft.Bytes
@@ -155,6 +156,47 @@ theorem C19_snapshot_response_roundtrip (r : WISResp) (h1 : U64 r.term) (h2 : U6
   cases r
   simp only [isRespFields, optV, Option.map_some, Option.some.injEq]
   split <;> split <;> simp_all [getVarint]
+
+/-- AppendEntries requests: any number of entries (the repeated embedded message), any payload
+    below 2^63 bytes, every entry type. -/
+theorem C19_append_request_roundtrip (q : WAEReq) (h : q.Valid) :
+    decodeAEReq (encodeFields (aeReqFields q)) = some q := aeReq_roundtrip q h
+
+/-- Configurations (two proto maps and an index): the entries come back exactly as sent, in
+    whatever order the sender's map iteration put them on the wire … -/
+theorem C19_configuration_roundtrip (c : WCfg) (h : c.Valid) :
+    decodeCfg (encodeFields (cfgFields c)) = some c := cfg_roundtrip c h
+
+/-- … hence the decoded maps hold, for every member, exactly its address and its voter flag
+    (a Go map has distinct keys). -/
+theorem C19_configuration_maps (c : WCfg) (h : c.Valid) (hm : (c.members.map (·.1)).Nodup) (hv : (c.voters.map (·.1)).Nodup) :
+    ∃ d, decodeCfg (encodeFields (cfgFields c)) = some d ∧ d.index = c.index ∧
+      (∀ kv ∈ c.members, lookupLast d.members kv.1 = some kv.2) ∧
+      (∀ kv ∈ c.voters, lookupLast d.voters kv.1 = some kv.2) :=
+  ⟨c, cfg_roundtrip c h, rfl, fun kv hkv => lookupLast_of_nodup _ hm kv hkv, fun kv hkv => lookupLast_of_nodup _ hv kv hkv⟩
+
+/-! Non-vacuity: a request with an empty entry, a configuration entry and a payload; a
+    configuration with a non-voter and an empty address. -/
+def exAE : WAEReq :=
+  { leaderId := [49], term := 3, leaderCommit := 0, prevIndex := 2 ^ 64 - 1, prevTerm := 2
+    entries := [{ index := 0, term := 0 }, { index := 5, term := 3, kind := 2, data := [0, 255] }] }
+
+example : decodeAEReq (encodeFields (aeReqFields exAE)) = some exAE := by
+  apply C19_append_request_roundtrip
+  refine ⟨by decide, by decide, by decide, by decide, by decide, ?_⟩
+  intro e he
+  simp only [exAE, List.mem_cons, List.mem_nil_iff, or_false] at he
+  rcases he with rfl | rfl <;> exact ⟨by decide, by decide, by decide, by decide⟩
+
+def exCfg : WCfg := { index := 9, members := [([50], []), ([49], [97, 58, 49])], voters := [([49], true), ([50], false)] }
+
+example : decodeCfg (encodeFields (cfgFields exCfg)) = some exCfg := by
+  apply C19_configuration_roundtrip
+  refine ⟨by decide, ?_, ?_⟩
+  · intro kv h; simp only [exCfg, List.mem_cons, List.mem_nil_iff, or_false] at h
+    rcases h with rfl | rfl <;> exact ⟨by decide, by decide⟩
+  · intro kv h; simp only [exCfg, List.mem_cons, List.mem_nil_iff, or_false] at h
+    rcases h with rfl | rfl <;> decide
 
 /-! Non-vacuity: a configuration entry with maximal index survives. -/
 example : decodeLogBody (encodeLogBody { index := 2 ^ 64 - 1, term := 7, offset := 4, data := [1, 2, 255], kind := 2 }) =
